@@ -179,6 +179,10 @@ func (p *polling) onDataRequest(ctx *types.HttpContext) {
 			// the upload ended early: what arrived is not the client's payload
 			cleanup()
 			p.OnError("data request connection closed prematurely", err)
+			// the connection may still be there (the body itself was malformed,
+			// e.g. a bad chunked encoding): the request is answered in any case
+			ctx.SetStatusCode(http.StatusBadRequest)
+			ctx.Write(nil)
 			return
 		}
 		if n > p.MaxHttpBufferSize() {
